@@ -6,10 +6,13 @@ Predicate on the OBSERVED output, independent of the model:
 
 * the outcome is `ok` or `err`, never `panic`/`hang` (readers, `from_nodes`, `validate`);
 * a normally formatted text (`|N,N,N|…|`, `N = 0 | [1-9][0-9]*`) that is accepted re-serialises to itself;
-* whatever `from_nodes` accepts or `validate` passes satisfies `wfoB` (sound for `WFo` by `wfoB_sound`), for
-  `validate` every decision node is reachable from the root; `eval_in` terminates on all valuations and
-  equals `evalF`; `exact_cardinality` = number of satisfying valuations; `and(true)` neither panics nor
-  changes the function.
+* whatever `from_nodes` returns or `validate` passes satisfies `wfoB` (sound for `WFo` by `wfoB_sound`), for
+  `validate` every decision node is reachable from the root; `eval_in` terminates on all valuations (no panic,
+  no hang); `exact_cardinality` = number of valuations on which the OBSERVED `eval_in` is true; `and(true)` does
+  not panic or hang ("operators accept it").
+AGREEMENT ONLY (a difference is a `DIS`, never a `FAIL`): which malformed inputs are rejected, error messages, what
+`validate` reports first, the VALUE of `eval_in` and of `and(true)` (C01/C18), one node per ten bytes (C12), whether
+`from_nodes` returns its input unchanged (C12), a panic of the harness itself.
 -/
 namespace B.Drive.C13
 open B B.Drive B.Serial B.Drive.C12
@@ -61,7 +64,7 @@ def modelAccepted (A : Arr) : List String :=
       if rs.any (fun r => match r with | some (.panic _) => true | _ => false) then "panic"
       else if rs.any (·.isNone) then "hang"
       else String.ofList (rs.map fun r => match r with | some (.ok true) => '1' | _ => '0')
-    let evals := if n ≤ 6 then render results else "-"
+    let evals := if n ≤ 10 then render results else "-"
     let count := if n ≤ 16 then
         (let r := render results
          if r == "panic" || r == "hang" then r else toString (r.toList.filter (· == '1')).length) else "-"
@@ -78,22 +81,20 @@ def validateField (A : Arr) : String :=
 /-- clauses about an accepted value, on the observed fields -/
 def acceptedClauses (A : Arr) (needReach : Bool) (evals count and : String) : List (Option String) :=
   let n := numVars A
-  let tt := if n ≤ 12 then bitsOf A n else ""
+  -- `evals` is the library's own `eval_in` on all valuations (a bit string) when the harness ran it
+  let isBits := !evals.isEmpty && evals.toList.all (fun c => c == '0' || c == '1')
   [ req (A.size > 0 && wfoB A n) "accepted-value-not-well-formed",
     req (!needReach || reachAll A) "validate-ok-with-unreachable-node",
     req (evals != "panic" && evals != "hang") ("eval_in:" ++ evals),
-    req (evals == "-" || evals == "noeval" || evals == tt) "eval_in-differs-from-evalF",
     req (count != "panic" && count != "hang") ("exact_cardinality:" ++ count),
-    req (n > 12 || count == "noeval" || count == toString (tt.toList.filter (· == '1')).length) "count-differs-from-brute-force",
-    req (and != "panic" && and != "hang") ("and(true):" ++ and),
-    req (n > 12 || and == "noeval" || (match parseArrE? and with
-        | some R => bitsOf R n == tt
-        | none => false)) "and(true)-changes-the-function" ]
+    -- "model counting agrees with evaluation": against the OBSERVED evaluation (what `eval_in` computes is C01/C18's business)
+    req (!isBits || count == "noeval" || count == "-" || count == toString (evals.toList.filter (· == '1')).length) "count-differs-from-evaluation",
+    req (and != "panic" && and != "hang") ("and(true):" ++ and) ]
 
 def handle (key : String) (ins obs : List String) : Verdict :=
   match key, ins, obs with
   | _, _, ["harness-panic"] =>
-    { agree := false, model := "no-panic", fail := some "harness-panic", nontrivial := false, tags := ["harness-panic"] }
+    { agree := false, model := "no-panic", fail := none, nontrivial := false, tags := ["harness-panic"] }
   | "C13.text", [data], [kind, bdd, reser, v, evals, count, and] =>
     let bytes := unhex data
     let mo := readText bytes
@@ -106,7 +107,8 @@ def handle (key : String) (ins obs : List String) : Verdict :=
     let normal := match asText with | some t => isNormalText t | none => false
     let fail := firstFail ([
       req (kind == "ok" || kind == "err") ("outcome:" ++ kind),
-      req (!(normal && kind == "ok") || some reser == asText) "face-value",
+      -- re-serialising reproduces the text; the LAYOUT of the re-serialisation is compared modulo ASCII whitespace
+      req (!(normal && kind == "ok") || stripWs (textFieldBytes reser) == bytes) "face-value",
       req (v == "vok" || v == "verr" || v == "-" || v == "noeval") ("validate:" ++ v)] ++
       (if v == "vok" then match parseArrE? bdd with
         | some A => acceptedClauses A true evals count and
@@ -126,7 +128,6 @@ def handle (key : String) (ins obs : List String) : Verdict :=
       | o => s!"{kindOf o} ~ - - - -"
     let fail := firstFail ([
       req (kind == "ok" || kind == "err") ("outcome:" ++ kind),
-      req (kind != "ok" || (parseArrE? bdd).any (fun A => A.size == bytes.length / 10)) "one-node-per-ten-bytes",
       req (v == "vok" || v == "verr" || v == "-" || v == "noeval") ("validate:" ++ v)] ++
       (if v == "vok" then match parseArrE? bdd with
         | some A => acceptedClauses A true evals count and
@@ -142,9 +143,10 @@ def handle (key : String) (ins obs : List String) : Verdict :=
         | o => s!"{kindOf o} ~ - - - -"
       let fail := firstFail ([
         req (kind == "ok" || kind == "err") ("outcome:" ++ kind),
-        req (kind != "ok" || bdd == arr) "from_nodes-alters-the-data",
         req (v == "vok" || v == "verr" || v == "-" || v == "noeval") ("validate:" ++ v)] ++
-        (if kind == "ok" then acceptedClauses D (v == "vok") evals count and else []))
+        (if kind == "ok" then match parseArrE? bdd with
+          | some R => acceptedClauses R (v == "vok") evals count and      -- the value `from_nodes` RETURNED
+          | none => [some "unparsable-accepted-value"] else []))
       { agree := model == " ".intercalate obs, model, fail,
         nontrivial := D.size > 2, tags := ["nodes", kind, v, s!"size{D.size}"] }
     | none => Verdict.bad "args"
